@@ -22,6 +22,12 @@ def link_pkts(s, rng, pred, pos):
     rng.shuffle(links)
     for l in links:
         c = [(l, i, p) for i, p in enumerate(s.pkts[l]) if pred(l, i, p)]
+        if c and pos == "p256":
+            # scale position: the packet whose index in its link is a multiple of 256 (per-link counters of any width below 16 bits wrap there)
+            cc = [x for x in c if x[1] > 0 and x[1] % 256 == 0]
+            if cc:
+                return cc[rng.randrange(len(cc))]
+            continue
         if c:
             return c[{"first": 0, "middle": len(c) // 2, "last": -1}[pos]]
     return None
@@ -354,7 +360,7 @@ def locate(s, target):
     return p.word_offsets[target[3]]
 
 
-def make_base(rng, fault_idx):
+def make_base(rng, fault_idx, big=False):
     """a conforming stream rich enough for the fault"""
     kw = dict(hbfs=rng.choice([2, 3, 4]), max_pages=rng.choice([2, 3]), n_links=rng.choice([1, 2, 3, 4]), hits=rng.choice(["few", "some"]),
               superset_lanes=False, max_triggers=rng.choice([2, 4]))
@@ -377,6 +383,8 @@ def make_base(rng, fault_idx):
         kw.update(fmt=2)
     if "first TDH" in name:
         kw.update(mode=rng.choice(["internal", "pht"]))
+    if big:
+        kw.update(n_links=1, hbfs=300, max_pages=kw.get("max_pages", rng.choice([2, 3])))
     return gen.generate(rng.getrandbits(40), **kw)
 
 
@@ -387,8 +395,11 @@ def one_case(args):
     out = dict(case=case, viol=None, fault=fault.name, fired=0, runs=0, applied=False, sample=None)
     info = None
     for attempt in range(12):
-        s = make_base(rng, fi)
-        info = fault.apply(s, rng, pos)
+        s = make_base(rng, fi, big=(pos == "p256"))
+        try:
+            info = fault.apply(s, rng, pos)
+        except KeyError:
+            info = None          # entry with its own position table: the scale position does not apply to it
         if info:
             break
     if not info:
@@ -462,7 +473,7 @@ def run(res):
     c = 0
     for rep in range(reps):
         for fi in range(len(CATALOGUE)):
-            for pos in ("first", "middle", "last"):
+            for pos in ("first", "middle", "last", "p256"):
                 jobs.append((exe, wd, res.seed, c, res.tier, fi, pos))
                 c += 1
     per = {}
@@ -481,7 +492,7 @@ def run(res):
     res.extra.update(catalogue_entries=len(CATALOGUE), per_entry=per, entries_never_applicable=never)
     if never:
         res.inconclusive.append("catalogue entries that could not be applied to any generated stream: %s" % never)
-    res.rule = ("%d catalogue entries (DESIGN.md §3 C02) x {first, middle, last} applicable position on a random link of a fresh conforming stream x the modes where the rule is "
+    res.rule = ("%d catalogue entries (DESIGN.md §3 C02) x {first, middle, last, index 256k of a > 600-packet link} applicable position on a random link of a fresh conforming stream x the modes where the rule is "
                 "documented active (+ sanity modes for purely stateful faults), -E N with N in {1,2,7,123,255}; non-trivial = a distinct (entry, stream) whose "
                 "expected (code, offset, exit) was observed" % len(CATALOGUE))
     res.min_nontrivial = int(0.8 * len(jobs) * 0.6)
